@@ -458,7 +458,14 @@ class FileDownloader(Resource, object):
 
         # TODO: for mutable files, use the roothash. For LIT, hash the data.
         # or maybe just use the URI for CHK and LIT.
-        rangeheader = req.getHeader('range')
+        try:
+            rangeheader = req.getHeader('range')
+        except UnicodeDecodeError:
+            # getHeader() with a str name decodes the value as UTF-8; bytes
+            # that are not text are no byte-ranges-specifier: ignore them
+            # like any other unparseable Range header instead of failing
+            # the request with a 500
+            rangeheader = None
         if rangeheader:
             ranges = self.parse_range_header(rangeheader)
 
